@@ -187,6 +187,20 @@ SHAPES = [
      '    a = SecretInteger(Input(name="a", party=p))\n    b = PublicInteger(Input(name="b", party=q))\n    c = PublicInteger(Input(name="c", party=q))\n'
      '    return [Output((b < c).if_else(a, b), "o", p)]\n',
      ["P", "Q"], [("a", "P", "SecretInteger"), ("b", "Q", "PublicInteger"), ("c", "Q", "PublicInteger")]),
+    # third / fourth seeding rounds
+    ("one-input-object-wrapped-twice",
+     'from nada_dsl import *\n\ndef nada_main():\n    alice = Party(name="Alice")\n    raw = Input(name="a", party=alice)\n'
+     '    hidden = SecretInteger(raw)\n    a = PublicInteger(raw)\n    return [Output(a + a, "twice", alice)]\n',
+     ["Alice"], [("a", "Alice", "PublicInteger")]),
+    ("one-input-object-wrapped-twice-secret-last",
+     'from nada_dsl import *\n\ndef nada_main():\n    alice = Party(name="Alice")\n    raw = Input(name="a", party=alice)\n'
+     '    shown = PublicInteger(raw)\n    a = SecretInteger(raw)\n    return [Output(a + a, "twice", alice)]\n',
+     ["Alice"], [("a", "Alice", "SecretInteger")]),
+    ("augmented-assignment-keeps-the-operand",
+     'from nada_dsl import *\n\ndef nada_main():\n    p = Party(name="P")\n    a = PublicInteger(Input(name="a", party=p))\n'
+     '    c = PublicInteger(Input(name="c", party=p))\n    b = SecretInteger(Input(name="b", party=p))\n    acc = a\n'
+     '    for t in [c, b]:\n        acc += t\n    return [Output(a * a, "sq", p), Output(acc, "acc", p)]\n',
+     ["P"], [("a", "P", "PublicInteger"), ("c", "P", "PublicInteger"), ("b", "P", "SecretInteger")]),
 ]
 
 
@@ -213,6 +227,17 @@ def run(ctx):
     fams = [k for k, _, _, _ in free] + ["straight-line"] * len(anf)
     sigs = run_sig(texts)
     mirs = progrun.run_impl([None] * len(texts), texts=texts)
+    # a signature handed to the caller must still be that program's signature after later programs were audited
+    changed = [i for i in range(len(texts)) if "sig_after_later_calls" in sigs[i]]
+    ctx.note(f"validate: {len(changed)} of {sum(1 for x in sigs if 'sig' in x)} returned signatures read differently after the later calls of the same process")
+    for i in changed[:4]:
+        vlib.report_failure(ctx, "C18/result-changed-by-later-audits",
+                            "the (parties, inputs, outputs) returned by signature() changed when later programs were audited in the same process, "
+                            "so it no longer describes its own program's MIR",
+                            dict(case=dict(kind="program", family=fams[i], source_text=texts[i],
+                                           audited_later_in_the_same_process=texts[i + 1:(i // SIG_CHUNK + 1) * SIG_CHUNK][:6]),
+                                 observed=dict(when_returned=sigs[i]["sig"], after_later_calls=sigs[i]["sig_after_later_calls"]),
+                                 how_to_replay="PYTHONPATH=<repo> /venv/bin/python /verif/tools/impl_sig.py (stdin: JSON list of these texts in order)"))
     hist = collections.Counter((f, "sig-ok" if "sig" in s else "sig-raises", "mir-ok" if "ok" in m else "mir-raises")
                                for f, s, m in zip(fams, sigs, mirs))
     both = [i for i in range(len(texts)) if "sig" in sigs[i] and "ok" in mirs[i]]
